@@ -2,7 +2,7 @@
    Conc.v: the memoizer as a transition system (one producer, any number of readers, any interleaving);
    plocal s = number of digits obtained from the source so far, imax s = largest index any wait call has carried. *)
 From Coq Require Import Arith List Lia Bool ZArith.
-Require Import Conc ConcTrace SrcParams SrcParamsOK.
+Require Import Conc ConcTrace SrcParams SrcParamsOK LayerC Demand.
 Import ListNotations.
 Local Close Scope Z_scope.
 
@@ -40,3 +40,17 @@ Proof.
   apply (end_marker_ends B K valid s s1 H1).
 Qed.
 Print Assumptions C06_never_after_end.
+
+(* demand side: the read paths never wait for an index beyond the position they are about to deliver.
+   Scan / ScanValues (All, Values, Matches...) stopped after k items: every waited index is the start or at most
+   start + (items delivered), and never beyond the limit; a pull of the v1/v2 iterator waits only for the position
+   after the one it delivers; At(i) waits for i. With C06_readahead this bounds the digits consulted by
+   (highest position delivered or asked about) + 1 + B. *)
+Theorem C06_demand_scan : forall (D : nat -> option nat) (W : nat -> nat -> nat * bool) k c idx limit x,
+  In x (scan_demand W k c idx limit) ->
+  x = idx \/ (idx < x <= idx + length (scan D W k c idx limit) /\ x <= limit).
+Proof. exact scan_demand_bound. Qed.
+Print Assumptions C06_demand_scan.
+
+Theorem C06_demand_pull : forall s x, In x (it_next_demand s) -> x = S (i_idx s) /\ i_ok s = true.
+Proof. exact it_next_demand_bound. Qed.
